@@ -119,7 +119,12 @@ class Impl(object):
                     elif k == 'pub':
                         self.session.publish(hx(ev[1]).decode(), hx(ev[2]))
                     elif k == 'read':
-                        self.readers.append(asyncio.ensure_future(self.session.read()))
+                        # read(), or one step of `async for msg in session` (only issued while close() has not been
+                        # called: then __anext__ is read())
+                        if len(ev) > 1 and ev[1] == 'next':
+                            self.readers.append(asyncio.ensure_future(self.session.__aiter__().__anext__()))
+                        else:
+                            self.readers.append(asyncio.ensure_future(self.session.read()))
                     elif self.close_task is None:
                         self.close_task = asyncio.ensure_future(self.session.close())
                 except Exception as e:
@@ -278,7 +283,7 @@ def gen_and_run(rng, tier, ident, secret, profile):
                 elif k == 'pub':
                     do(['pub', hexin(rng.choice(CHANS)), hexin(bytes(rng.getrandbits(8) for _ in range(rng.choice([0, 3, 200]))))])
                 else:
-                    do(['read'])
+                    do(['read', 'next'] if (impl.close_task is None and rng.random() < 0.5) else ['read'])
                 continue
             if r < 0.9:
                 do(['advance', rng.choice([1, 500, 999, 1000, 1001, 3000])])
@@ -289,7 +294,7 @@ def gen_and_run(rng, tier, ident, secret, profile):
             do(['idle'])
         if profile == 'normal':
             for _ in range(rng.choice([0, 2, 6])):
-                do(['read'])
+                do(['read', 'next'] if (impl.close_task is None and rng.random() < 0.5) else ['read'])
         if profile == 'close' and impl.close_task is None:
             do(['close'])
         # bounded completion of close: deliver the loss of whatever the client closed, let time pass
@@ -324,7 +329,7 @@ def sweep_scripts(make_impl, canon_fn, twisted, double=False):
         return enc(P.OP_PUBLISH, p8(i) + p8(c) + p)
     m2 = pub(b'bob', b'c2', b'second message')
     base = [('app', ['sub', hexin(b'c1')]), ('net', 'info-a'), ('net', 'info-b'), ('net', pub(b'alice', b'c1', b'm1')),
-            ('app', ['read']), ('app', ['sub', hexin(b'c2')]), ('net', m2[:9]), ('net', m2[9:]), ('app', ['read']),
+            ('app', ['read']), ('app', ['sub', hexin(b'c2')]), ('net', m2[:9]), ('net', m2[9:]), ('app', ['read', 'next']),
             ('app', ['unsub', hexin(b'c1')]), ('app', ['pub', hexin(b'c2'), hexin(b'xyz')]), ('net', pub(b'alice', b'c2', b'm3')),
             ('app', ['read'])]
     faults = ['lost', 'refuse', 'close']
@@ -383,6 +388,8 @@ def sweep_scripts(make_impl, canon_fn, twisted, double=False):
                     break
                 kind, what = base[i]
                 if kind == 'app':
+                    if what == ['read', 'next'] and (st['closed'] or twisted):
+                        what = ['read']         # after close() __anext__ ends the iteration instead of reading
                     do(what)
                     continue
                 if st['closed']:
